@@ -172,10 +172,11 @@ var props = map[string]*propCfg{
 	},
 	"C11": {
 		ID: "C11", Level: "model_checking", Exhaustive: true,
-		Rule:        "Markers.tla models what a query writes into the caller's document (the <- back-reference per row with nesting, CTE entries, the EXISTS row extension) with a failure possible at every step; TLC checks DocRestored on all behaviours (3 rows, nesting depth 3) and, as a non-vacuity audit, that each of the three repaired deviations of the pinned tree violates it. Binding: every case of the fault-shape module MC_C19 (26 shapes with the fault-injecting function in every clause position x tables) is run fault-free and with the k-th invocation failing for every k, plain and Wrapped, and reduced configurations of the families of C01 (filters, IN subquery), C03 (GROUP BY), C05 (ORDER BY / LIMIT), C06 (DISTINCT / UNION), C07 (CTEs, derived tables, subqueries, EXISTS) and C08 (multi-dimensional FROM) are run plain and Wrapped; after every New + Exec - successful or failed, and after a follow-up statement - the caller's document is compared with a deep copy taken before (cycle-safe: no added / removed key at any depth, no changed array element). Non-trivial: the query contains a subquery, EXISTS, CTE, derived table, join, ORDER BY, aggregate or an injected fault; distinct = distinct (document, query).",
+		Rule:        "Markers.tla models what a query writes into the caller's document (the <- back-reference per row with nesting, CTE entries, the EXISTS row extension) with a failure possible at every step; TLC checks DocRestored on all behaviours (3 rows, nesting depth 3) and, as a non-vacuity audit, that each of the four repaired deviations of the pinned tree violates it or RowsUntouched. Binding: every case of the fault-shape module MC_C19 (26 shapes with the fault-injecting function in every clause position x tables) is run fault-free and with the k-th invocation failing for every k, plain and Wrapped, and reduced configurations of the families of C01 (filters, IN subquery), C03 (GROUP BY), C05 (ORDER BY / LIMIT), C06 (DISTINCT / UNION), C07 (CTEs, derived tables, subqueries, EXISTS) and C08 (multi-dimensional FROM) are run plain and Wrapped; after every New + Exec - successful or failed, and after a follow-up statement - the caller's document is compared with a deep copy taken before (cycle-safe: no added / removed key at any depth, no changed array element). Non-trivial: the query contains a subquery, EXISTS, CTE, derived table, join, ORDER BY, aggregate or an injected fault; distinct = distinct (document, query).",
 		Assumptions: baseAssumptions,
 		Quick: []legCfg{
 			{Kind: "mc", Name: "markers", Module: "Markers", Cfg: "Markers_ok.cfg", Timeout: 5 * time.Minute, TLCWorkers: 4, NoExport: true},
+			{Kind: "mc", Name: "dev-row", Module: "Markers", Cfg: "Markers_dev_MarkerInCallerRow.cfg", Timeout: 5 * time.Minute, TLCWorkers: 1, NoExport: true, Expect: "RowsUntouched"},
 			{Kind: "mc", Name: "dev-post", Module: "Markers", Cfg: "Markers_dev_PostProcessorCleanup.cfg", Timeout: 5 * time.Minute, TLCWorkers: 1, NoExport: true, Expect: "DocRestored"},
 			{Kind: "mc", Name: "dev-cte", Module: "Markers", Cfg: "Markers_dev_CteInCallerMap.cfg", Timeout: 5 * time.Minute, TLCWorkers: 1, NoExport: true, Expect: "DocRestored"},
 			{Kind: "mc", Name: "dev-exists", Module: "Markers", Cfg: "Markers_dev_ExistsInPlace.cfg", Timeout: 5 * time.Minute, TLCWorkers: 1, NoExport: true, Expect: "DocRestored"},
@@ -222,6 +223,27 @@ var props = map[string]*propCfg{
 			{Kind: "mc", Name: "d", Module: "MC_C14", Cfg: "C14_d.cfg", Timeout: 10 * time.Minute, TLCWorkers: 4, Workers: 8},
 			{Kind: "exec", Name: "immediate", Mode: "immediate", Timeout: 2 * time.Minute},
 			{Kind: "trace", Name: "latency", Module: "AsyncTrace", TraceN: 600, TraceFiles: 15, Timeout: 20 * time.Minute, CallEv: "begin"},
+		},
+	},
+	"C13": {
+		ID: "C13", Level: "model_checking", Race: true,
+		Rule:        "Cache.tla: all interleavings of 3 goroutines x 2 selector texts through the cache protocol of ExecReader with map accesses as begin / end pairs (NoOverlap, OwnEntry, UnderLock, termination under fairness); the pinned read-after-unlock protocol must violate NoOverlap. Markers.tla (C11) adds RowsUntouched: a query writes nothing into the caller's rows at any time, which is what makes one document shareable. Binding: (T) the guarded hook in ExecReader reports every protocol step of every goroutine with the fact whether the cache mutex is held (TryLock); 2-8 free-running goroutines evaluate fresh and shared selector texts and the recorded sequence is validated against CacheTrace (lock only a free mutex, store / read only as holder, fact = held at every step). (X) 16 scenario classes - separate documents / one shared document; fresh / cached selector texts; filter, projection, select-list subquery, EXISTS, IN subquery, CTE, GROUP BY, ORDER BY, Wrapped, PARALLEL joins, ASYNC / SPINASYNC - x 2..8 (thorough 2..16) goroutines x 60 (300) queries each, in a child process built with the race detector: every goroutine's result must equal the query's result when run alone, and a race report, a 'concurrent map' fatal error, a crash, a hang or a modified shared document is a violation. Non-trivial: every scenario run; distinct = distinct (scenario, goroutine count).",
+		Assumptions: append([]string{"the Go race detector and the process exit status are observation channels on the executions the scenario driver produces; races in code no scenario exercises are not seen", "goroutine schedules are those the Go scheduler produces during the runs (not enumerated)"}, baseAssumptions...),
+		Quick: []legCfg{
+			{Kind: "mc", Name: "cache", Module: "Cache", Cfg: "Cache_ok.cfg", Timeout: 5 * time.Minute, TLCWorkers: 4, NoExport: true},
+			{Kind: "mc", Name: "cache-dev", Module: "Cache", Cfg: "Cache_dev.cfg", Timeout: 5 * time.Minute, TLCWorkers: 1, NoExport: true, Expect: "NoOverlap"},
+			{Kind: "mc", Name: "rows", Module: "Markers", Cfg: "Markers_ok.cfg", Timeout: 5 * time.Minute, TLCWorkers: 4, NoExport: true},
+			{Kind: "mc", Name: "rows-dev", Module: "Markers", Cfg: "Markers_dev_MarkerInCallerRow.cfg", Timeout: 5 * time.Minute, TLCWorkers: 1, NoExport: true, Expect: "RowsUntouched"},
+			{Kind: "trace", Name: "cache", Module: "CacheTrace", TraceN: 40, TraceFiles: 4, Timeout: 10 * time.Minute, CallEv: "begin", APIKinds: []string{"lockfact", "protocol"}},
+			{Kind: "exec", Name: "race", Mode: "race", Timeout: 20 * time.Minute},
+		},
+		Thorough: []legCfg{
+			{Kind: "mc", Name: "cache", Module: "Cache", Cfg: "Cache_ok.cfg", Timeout: 5 * time.Minute, TLCWorkers: 4, NoExport: true},
+			{Kind: "mc", Name: "cache-dev", Module: "Cache", Cfg: "Cache_dev.cfg", Timeout: 5 * time.Minute, TLCWorkers: 1, NoExport: true, Expect: "NoOverlap"},
+			{Kind: "mc", Name: "rows", Module: "Markers", Cfg: "Markers_ok.cfg", Timeout: 5 * time.Minute, TLCWorkers: 4, NoExport: true},
+			{Kind: "mc", Name: "rows-dev", Module: "Markers", Cfg: "Markers_dev_MarkerInCallerRow.cfg", Timeout: 5 * time.Minute, TLCWorkers: 1, NoExport: true, Expect: "RowsUntouched"},
+			{Kind: "trace", Name: "cache", Module: "CacheTrace", TraceN: 200, TraceFiles: 12, Timeout: 20 * time.Minute, CallEv: "begin", APIKinds: []string{"lockfact", "protocol"}},
+			{Kind: "exec", Name: "race", Mode: "race", Timeout: 40 * time.Minute},
 		},
 	},
 }
